@@ -55,9 +55,9 @@ def begin_case(case):
         srf_flx=str(rng.choice(["C", "C", "F", "strided"])),
         scalars=str(rng.choice(["python", "numpy"])),
         decoys=bool(rng.random() < 0.3),
-        threads=int(rng.choice([1, 1, 1, 1, 1, 1, 1, 2, 3, 6])),
+        threads=int(rng.choice([1, 1, 1, 1, 1, 1, 1, 1, 2, 3])),
     )
-    # the process-wide thread setting of the solver: 30 % of the cases run the multi-thread kernel (2, 3 or 6 threads); checks that
+    # the process-wide thread setting of the solver: 20 % of the cases run the multi-thread kernel (2 or 3 threads); checks that
     # manage the setting themselves (C12, C14) overwrite it
     try:
         from bldfm import config as _rc
